@@ -146,9 +146,10 @@ func (self *visitorUserNode) decode(bytes []byte, desc *proto.TypeDescriptor) ([
 		self.stk[self.sp].typ = objStkType
 	}
 	// NOTICE: sonic's number scanner looks at the byte behind a leading '0' without a bound check,
-	// so an input that ends there needs one more byte in its buffer
-	if n := len(bytes); n > 0 && bytes[n-1] == '0' {
-		bytes = append(make([]byte, 0, n+1), bytes...)
+	// so an input that ends there needs one more byte in its buffer.
+	// Its literal scanner loads 4 bytes at once and miscalculates the bound for inputs shorter than that
+	if n := len(bytes); n < 4 || bytes[n-1] == '0' {
+		bytes = append(make([]byte, 0, n+4), bytes...)
 	}
 	str := rt.Mem2Str(bytes)
 	if err := ast.Preorder(str, self, nil); err != nil {
